@@ -108,6 +108,22 @@ func Overlap(a, b []Region) string {
 	return ""
 }
 
+// scribbleTargets writes through the pointers held by a map key (the key itself cannot change: it is hashed).
+func scribbleTargets(k reflect.Value, seen map[uintptr]bool) {
+	switch k.Kind() {
+	case reflect.Ptr:
+		scribble(k, seen)
+	case reflect.Array:
+		for i := 0; i < k.Len(); i++ {
+			scribbleTargets(k.Index(i), seen)
+		}
+	case reflect.Struct:
+		for i := 0; i < k.NumField(); i++ {
+			scribbleTargets(k.Field(i), seen)
+		}
+	}
+}
+
 // Scribble overwrites every mutable location reachable from v (leaf values, slice elements including
 // spare capacity, map entries) without changing which allocations are reachable.
 func Scribble(v reflect.Value) {
@@ -173,6 +189,7 @@ func scribble(v reflect.Value, seen map[uintptr]bool) {
 		seen[v.Pointer()] = true
 		mv := Settable(v)
 		for _, k := range mv.MapKeys() {
+			scribbleTargets(k, seen)
 			tmp := reflect.New(v.Type().Elem()).Elem()
 			deepAssign(tmp, mv.MapIndex(k))
 			scribble(tmp, seen)
